@@ -20,6 +20,21 @@ with open('/verif/seeded/README.md', 'w') as f:
     for r in rows:
         f.write('| ' + ' | '.join(str(x).replace('|', '\\|').replace('\n', ' ') for x in r) + ' |\n')
     n1 = sum(1 for r in rows if r[4] == 'first try')
+    # per-round tally (round recorded in detection.round, or as "round N;" at the start of the note; default 1)
+    import re, collections
+    tally = collections.OrderedDict()
+    for d in sorted(glob.glob('/verif/seeded/*/')):
+        det = json.load(open(os.path.join(d, 'meta.json')))['detection']
+        rd = det.get('round')
+        if rd is None:
+            mm = re.match(r'round (\d)', det.get('note', ''))
+            rd = int(mm.group(1)) if mm else 1
+        t = tally.setdefault(rd, [0, 0])
+        t[0 if det.get('first_try') else 1] += 1
+    f.write('\n| round | changes | reported as the checks stood | missed at first |\n|---|---|---|---|\n')
+    for rd in sorted(tally):
+        a, b = tally[rd]
+        f.write(f'| {rd} | {a+b} | {a} | {b} |\n')
     f.write(f'\n{len(rows)} changes; {n1} reported by the check as it stood, {len(rows)-n1} missed at first and reported after the check was strengthened (every one is reported now).\n')
 raw = '/verif/selftest/RESULTS.raw.md'
 if os.path.exists(raw):
